@@ -300,6 +300,8 @@ class Body:
                 return ('const', int(c['v']))
             if 'str' in c:
                 return ('str', c['str'])
+            if 'pbytes' in c:
+                return ('promoted', c['pbytes'], canon(c.get('ty', ''), self.crate))
             if 'def' in c:
                 return ('constdef', canon(c['def'], self.crate))
             if 'closure' in c:
@@ -600,6 +602,8 @@ def show(e, depth=0):
         return str(e[1])
     if k == 'str':
         return '\u27ea%s\u27eb' % e[1]
+    if k == 'promoted':
+        return 'promoted(%s)' % e[2]
     if k in ('constdef', 'closure', 'constx', 'fnref'):
         return short(e[1])
     if k == 'field':
@@ -649,7 +653,7 @@ def short(path):
 def nosite(e):
     """expression with call-site ids erased (for comparing the *shape* of two expressions in
     different functions)."""
-    if not isinstance(e, tuple):
+    if not isinstance(e, tuple) or not e:
         return e
     if e[0] == 'call':
         return ('call', e[1], tuple(nosite(a) for a in e[2]))
